@@ -151,6 +151,11 @@ structure Config where
   srflxMux : Option (List Addr) := none
   stunUrls : Nat := 0
   turnUrls : Nat := 0
+  /-- per TURN URL, in order: 0 = username and password given, 1 = empty username, 2 = empty password (missing
+  entries = 0). `gatherCandidatesRelay` returns at the first TURN URL without credentials: the URLs after it are
+  never tried, the allocations already started are still waited for (`defer wg.Wait()`). Server reflexive gathering
+  over the same URLs does not look at credentials. -/
+  turnCreds : List Nat := []
   /-- ports that are taken by somebody else -/
   busy : List (Addr × Nat) := []
   /-- 0 = TURN client works, 1 = factory fails, 2 = `Listen` fails -/
@@ -416,12 +421,16 @@ def relayAddrs (cfg : Config) (m : Nat) : Option (List Addr) :=
 
 def relayN (cfg : Config) : Nat := ((relayAddrs cfg 0).getD []).length
 
+/-- number of TURN URLs `gatherCandidatesRelay` gets to: those before the first one that lacks a username or a password -/
+def turnUsable (cfg : Config) : Nat :=
+  ((List.range cfg.turnUrls).takeWhile (fun k => cfg.turnCreds.getD k 0 == 0)).length
+
 /-- units of `gatherCandidatesRelay` (UDP TURN URLs; IPv6 TURN is skipped by the code) -/
 def relayUnits (cfg : Config) (ifs : List Iface) : List GUnit :=
   let la := localAddrs cfg cfg.netTypes ifs
   if useFilteredLocalAddrs cfg && la.isEmpty then [] else
   if (udpTypes (configured cfg.netTypes)).isEmpty then [] else
-  (List.range cfg.turnUrls).flatMap fun k =>
+  (List.range (turnUsable cfg)).flatMap fun k =>
     if useFilteredLocalAddrs cfg then
       (la.filter (fun (a, _) => !a.cls.is6)).map fun (a, _) =>
         { kind := .relay, net := .udp4, bind := a, url := k, n := relayN cfg }
